@@ -57,6 +57,7 @@ def special_pairs():
         ([{'a': 1}, {'b': 2}], [{'b': 2}, {'a': 1, 'c': 3}]),
         ({'a': b'xy'}, {'a': b'xz', 'b': 1.5}),
         ({'a': int}, {'a': str}),                                           # types as values
+        ({'name': 'café', 'city': 'Zürich', 'l': ['é']}, {'name': 'cafe', 'city': 'Zürich ü', 'l': ['é', 'ß'], 'k€y': 1}),       # non-ASCII text in values and keys
         ({'user__name': 'a', 'filters': {'owner__id__in': [1], 'x_': 2}, '_p__q': 1}, {'user__name': 'b', 'filters': {'owner__id__in': [1, 2], 'y__': 3}, '_p__q': 2}),   # underscores inside keys
         ({'limit': 10, 'tags': ['a'], 'n': None}, {'limit': None, 'tags': ['a', 'b'], 'n': 'None'}),      # None on either side of a type change
         ([1.0, float('nan'), 2], [1.0, 2]), ({'k': [float('nan'), 'x']}, {'k': ['x']}), ([decimal.Decimal('NaN'), 5, 6], [5, 6, 7]),          # items that are not equal to themselves
@@ -413,6 +414,18 @@ def run(ctx, impl_only=False):
                             ctx.violate(dict(case, channel='json'), 'JSON-reloaded payload differs')
                         else:
                             mkj = lambda: Delta(js, bidirectional=bidir, always_include_values=aiv, deserializer=json_loads, raise_errors=rerr)
+                            # second cycles across formats: pickle bytes reloaded with the JSON serializer dump as JSON text, JSON text reloaded
+                            # with the default serializer dumps as a pickle; each reloads as the same payload
+                            try:
+                                cross1 = Delta(b, bidirectional=bidir, always_include_values=aiv, serializer=json_dumps).dumps()
+                                if not isinstance(cross1, str) or pkl.symb(Delta(cross1, bidirectional=bidir, always_include_values=aiv, deserializer=json_loads).diff) != pkl.symb(dj.diff):
+                                    ctx.violate(dict(case, channel='pickle->json'), 'a delta reloaded from pickle bytes with serializer=json_dumps does not dump as the JSON text of its payload')
+                                cross2 = Delta(js, bidirectional=bidir, always_include_values=aiv, deserializer=json_loads).dumps()
+                                if not isinstance(cross2, bytes) or pkl.symb(Delta(cross2, bidirectional=bidir, always_include_values=aiv).diff) != pkl.symb(dj.diff):
+                                    ctx.violate(dict(case, channel='json->pickle'), 'a delta reloaded from JSON text with the default serializer does not dump as a pickle of its payload')
+                                ctx.count('channel:cross_format')
+                            except Exception as e:
+                                ctx.violate(dict(case, channel='cross_format'), 'a second dump / load cycle across formats raised %s: %s' % (type(e).__name__, str(e)[:100]))
                             outs = [outcome(lambda b_=b_: copy.deepcopy(b_) + mkj()) for b_ in bases]
                             if bidir:
                                 outs += [outcome(lambda b_=b_: copy.deepcopy(b_) - mkj()) for b_ in bases]
@@ -421,8 +434,12 @@ def run(ctx, impl_only=False):
                             # the same JSON text reloaded from a path and from a file object: the constructor's
                             # deserializer must reach every channel
                             jpath = os.path.join(tmpdir, 'd.json')
-                            with open(jpath, 'w') as fh:
-                                dj0.dump(fh)
+                            try:
+                                with open(jpath, 'w', encoding=('latin-1' if ctx.evaluations % 2 else 'utf-8')) as fh:      # the JSON text is plain ASCII: any text file will do
+                                    dj0.dump(fh)
+                            except UnicodeEncodeError as e:
+                                ctx.violate(dict(case, channel='json_path'), 'the JSON text of the delta cannot be written to a latin-1 / utf-8 text file: %s' % str(e)[:80])
+                                raise
                             jl = {'json_path': lambda: Delta(delta_path=jpath, bidirectional=bidir, always_include_values=aiv, deserializer=json_loads, raise_errors=rerr),
                                   'json_file': lambda: Delta(delta_file=io.StringIO(js), bidirectional=bidir, always_include_values=aiv, deserializer=json_loads, raise_errors=rerr)}
                             for chj, mkx in jl.items():
